@@ -57,6 +57,11 @@ Theorem C11_py_read_keys_every_input : forall (data : bytes) f, (length data + 3
              ("reservation_keys", PList (map prk_key (chunks (length announced) 8 announced)))]).
 Proof. exact read_keys_total. Qed.
 
+Theorem C11_py_reportluns_every_input : forall (data : bytes) f, (length data + 3 <= f)%nat ->
+  let announced := py_slice data (Some 8%Z) (Some (Z.of_N (ba_to_int (py_slice data None (Some 4%Z))) + 8)%Z) in
+  call_fun all_tables py_program f RL [PBytes data] = Ok (PDict [("luns", PList (rl_entries 0 (chunks (length announced) 8 announced)))]).
+Proof. exact reportluns_total. Qed.
+
 (* in particular: never the exception of a loop that does not end, for any bytes *)
 Theorem C11_py_no_divergence : forall (data : bytes),
   call_fun all_tables py_program (length data + 3) GLS [PBytes data] <> Raise Diverges /\
